@@ -74,6 +74,8 @@ pub struct Cfg {
     pub zc_error_notif: bool,
     /// Offer DropHeld / CloseHeld / Stdio letters.
     pub held_letters: bool,
+    /// The pool has already performed this many releases (multiple of the pool size).
+    pub pool_shift: u16,
 }
 
 impl Cfg {
@@ -104,6 +106,7 @@ impl Cfg {
             sqpoll: false,
             zc_error_notif: true,
             held_letters: false,
+            pool_shift: 0,
         }
     }
 }
@@ -201,6 +204,25 @@ struct Slot {
     held: HeldPair,
 }
 
+#[derive(Clone, Debug, PartialEq, Eq)]
+enum SelState {
+    /// Selected by the kernel, completion not yet turned into a ReadBuf.
+    InFlight,
+    /// Owned by a live ReadBuf handed to the caller.
+    Owned,
+    Released,
+    /// Delivered to an operation that had been dropped.
+    Lost,
+}
+
+#[derive(Clone, Debug)]
+struct Sel {
+    bid: u16,
+    slot: usize,
+    state: SelState,
+    data: Vec<u8>,
+}
+
 type HeldPair = (std::rc::Rc<std::cell::RefCell<Vec<AsyncFd>>>, std::rc::Rc<std::cell::RefCell<Vec<a10::io::ReadBuf>>>);
 
 pub struct OpsWorld {
@@ -223,6 +245,11 @@ pub struct OpsWorld {
     stdio_done: bool,
     /// Descriptors given to `AsyncFd::close`: (number, direct, slot of the Close op).
     close_targets: Vec<(i32, bool, usize)>,
+    /// Pool buffers selected by the kernel.
+    sels: Vec<Sel>,
+    /// (address, length) of every pool buffer by id.
+    pool_bufs: Vec<(usize, u32)>,
+    lost_reported: bool,
 }
 
 fn v(prop: &str, sig: &str, msg: String) -> Violation {
@@ -260,6 +287,7 @@ impl OpsWorld {
             };
             (ring, sq, fd, fd_raw, pool)
         });
+        #[allow(unused_mut)]
         let mut w = OpsWorld {
             cfg,
             ring: Some(ring),
@@ -278,7 +306,11 @@ impl OpsWorld {
             slot_waiters: Vec::new(),
             stdio_done: false,
             close_targets: Vec::new(),
+            sels: Vec::new(),
+            pool_bufs: Vec::new(),
+            lost_reported: false,
         };
+        w.learn_pool();
         for k in w.cfg.preset.clone() {
             w.new_op(k);
         }
@@ -572,10 +604,141 @@ impl OpsWorld {
         }
         let new_outs: Vec<OutRec> = simk::with(|k| k.req(serial).outs[outs_before..].to_vec());
         for o in new_outs {
+            if o.flags & CQE_F_BUFFER != 0 && o.res >= 0 {
+                let dropped = self.slots[i].op.is_none();
+                self.sels.push(Sel {
+                    bid: (o.flags >> CQE_BUFFER_SHIFT) as u16,
+                    slot: i,
+                    state: if dropped { SelState::Lost } else { SelState::InFlight },
+                    data: o.data.clone(),
+                });
+            }
             let value = Self::render(kind, nth, &o);
             self.slots[i].recs.push(Rec { serial, res: o.res, flags: o.flags, value, skipped: o.skipped });
         }
         self.absorb_kernel_log();
+    }
+
+    /// Learn the pool's buffers from the buffer ring a10 registered.
+    fn learn_pool(&mut self) {
+        if self.pool.is_none() {
+            return;
+        }
+        self.pool_bufs = simk::with(|k| {
+            let Some(pb) = k.rings[0].pbufs.first() else { return Vec::new() };
+            let mut v = vec![(0usize, 0u32); pb.entries as usize];
+            for i in 0..pb.entries as usize {
+                let e = unsafe { std::ptr::read_volatile((pb.addr + i * 16) as *const BufRingEntry) };
+                if (e.bid as usize) < v.len() {
+                    v[e.bid as usize] = (e.addr as usize, e.len);
+                }
+            }
+            v
+        });
+        if self.cfg.pool_shift != 0 {
+            // A pool that has already performed `shift` releases: advance the
+            // ring tail and the kernel's head together.
+            let shift = self.cfg.pool_shift;
+            simk::with(|k| {
+                let pb = &mut k.rings[0].pbufs[0];
+                let tail = unsafe { &*((pb.addr + 14) as *const std::sync::atomic::AtomicU16) };
+                let t = tail.load(std::sync::atomic::Ordering::SeqCst);
+                // Move the entries so that indices still line up.
+                let n = pb.entries as usize;
+                let old: Vec<BufRingEntry> = (0..n).map(|i| unsafe { std::ptr::read_volatile((pb.addr + i * 16) as *const BufRingEntry) }).collect();
+                for i in 0..n {
+                    let src = old[i];
+                    let dst = (i + shift as usize) % n;
+                    let keep_tail = dst == 0;
+                    unsafe {
+                        let p = (pb.addr + dst * 16) as *mut BufRingEntry;
+                        (*p).addr = src.addr;
+                        (*p).len = src.len;
+                        (*p).bid = src.bid;
+                        if !keep_tail {
+                            (*p).resv = src.resv;
+                        }
+                    }
+                }
+                tail.store(t.wrapping_add(shift), std::sync::atomic::Ordering::SeqCst);
+                pb.head = pb.head.wrapping_add(shift);
+            });
+        }
+    }
+
+    /// C08: every pool buffer is offered to the kernel, selected for a pending
+    /// completion, or owned by exactly one ReadBuf.
+    fn pool_check(&mut self, at_end: bool) {
+        if self.pool_bufs.is_empty() {
+            return;
+        }
+        let n = self.pool_bufs.len();
+        let (offered, bad_entries): (Vec<u16>, Vec<String>) = simk::with(|k| {
+            let Some(pb) = k.rings[0].pbufs.first() else { return (Vec::new(), Vec::new()) };
+            let tail = unsafe { &*((pb.addr + 14) as *const std::sync::atomic::AtomicU16) }.load(std::sync::atomic::Ordering::SeqCst);
+            let mut v = Vec::new();
+            let mut bad = Vec::new();
+            let mut h = pb.head;
+            let mut guard = 0;
+            while h != tail && guard < 70000 {
+                let idx = (h as u32 & (pb.entries - 1)) as usize;
+                let e = unsafe { std::ptr::read_volatile((pb.addr + idx * 16) as *const BufRingEntry) };
+                v.push(e.bid);
+                match self.pool_bufs.get(e.bid as usize) {
+                    Some((addr, len)) if *addr == e.addr as usize && *len == e.len => {}
+                    _ => bad.push(format!("ring entry {idx}: addr={:#x} len={} bid={}", e.addr, e.len, e.bid)),
+                }
+                h = h.wrapping_add(1);
+                guard += 1;
+            }
+            (v, bad)
+        });
+        for b in bad_entries {
+            self.report("C08", "bad-ring-entry", format!("buffer ring entry does not describe its buffer: {b}"));
+        }
+        if offered.is_empty() && simk::with(|k| k.rings[0].pbufs.is_empty()) {
+            return; // Pool unregistered.
+        }
+        let mut sorted = offered.clone();
+        sorted.sort();
+        let mut dedup = sorted.clone();
+        dedup.dedup();
+        if dedup.len() != sorted.len() {
+            self.report("C08", "offered-twice", format!("a buffer is offered to the kernel twice: {offered:?}"));
+            return;
+        }
+        let busy: Vec<u16> = self.sels.iter().filter(|s| matches!(s.state, SelState::InFlight | SelState::Owned | SelState::Lost)).map(|s| s.bid).collect();
+        for b in &busy {
+            if sorted.contains(b) {
+                let st = self.sels.iter().find(|s| s.bid == *b && s.state != SelState::Released).map(|s| s.state.clone());
+                self.report("C08", "offered-while-owned", format!("buffer {b} is offered to the kernel while it is {st:?}"));
+                return;
+            }
+        }
+        let missing: Vec<u16> = (0..n as u16).filter(|b| !sorted.contains(b) && !busy.contains(b)).collect();
+        if !missing.is_empty() {
+            self.report("C08", "buffer-lost", format!("buffers {missing:?} are neither offered to the kernel nor owned (offered {offered:?}, busy {busy:?})"));
+            return;
+        }
+        // Bytes held in live ReadBufs are what the kernel wrote for them.
+        for i in 0..self.slots.len() {
+            let bufs = self.slots[i].held.1.clone();
+            for b in bufs.borrow().iter() {
+                let addr = b.as_ptr() as usize;
+                let Some(bid) = self.pool_bufs.iter().position(|(a, l)| addr >= *a && addr < *a + *l as usize) else { continue };
+                if let Some(sel) = self.sels.iter().find(|s| s.bid == bid as u16 && s.state == SelState::Owned) {
+                    if !b[..].ends_with(&sel.data) && !b[..].starts_with(&sel.data) {
+                        self.report("C08", "data-overwritten", format!("ReadBuf for buffer {bid} holds {:02x?}, the kernel wrote {:02x?}", &b[..], sel.data));
+                    }
+                }
+            }
+        }
+        if at_end {
+            let lost: Vec<(u16, String)> = self.sels.iter().filter(|s| s.state == SelState::Lost).map(|s| (s.bid, format!("{:?}", self.slots[s.slot].kind))).collect();
+            if let Some((bid, kind)) = lost.first() {
+                self.report("C08", &format!("buffer-lost/delivered-to-abandoned-op:{kind}"), format!("buffer {bid} was selected for a completion of an operation ({kind}) whose future had been dropped; it is never given back to the pool"));
+            }
+        }
     }
 
     /// Absorb completions the kernel produced on its own (cancellations).
@@ -775,6 +938,11 @@ impl OpsWorld {
             Seen::Ready(ref val) => {
                 self.slots[i].pending = None;
                 self.slots[i].seen.push(val.clone());
+                if val.starts_with("buf:") {
+                    if let Some(sel) = self.sels.iter_mut().find(|s| s.slot == i && s.state == SelState::InFlight) {
+                        sel.state = SelState::Owned;
+                    }
+                }
             }
             Seen::End => {
                 self.slots[i].pending = None;
@@ -905,6 +1073,9 @@ impl OpsWorld {
                 self.report("C06", &sig, format!("op {i} ({kind:?}) dropped while not in flight (phase {:?}) but a request was published: {}", self.slots[i].phase, sqe.describe()));
             }
         }
+        for sel in self.sels.iter_mut().filter(|s| s.slot == i && s.state == SelState::InFlight) {
+            sel.state = SelState::Lost;
+        }
         // Handed-out objects stay alive in the slot.
         self.slots[i].op = None;
         let _ = (held, bufs);
@@ -1020,6 +1191,9 @@ impl World for OpsWorld {
                     fds.borrow_mut().clear();
                     bufs.borrow_mut().clear();
                 });
+                for sel in self.sels.iter_mut().filter(|s| s.slot == *i && s.state == SelState::Owned) {
+                    sel.state = SelState::Released;
+                }
                 self.absorb_kernel_log();
             }
             Action::CloseHeld(i) => {
@@ -1069,11 +1243,15 @@ impl World for OpsWorld {
     }
 
     fn take_violations(&mut self) -> Vec<Violation> {
+        self.pool_check(false);
         std::mem::take(&mut self.violations)
     }
 
     fn key(&mut self) -> u64 {
         let mut h = String::new();
+        for s in &self.sels {
+            h.push_str(&format!("<{} {} {:?}>", s.bid, s.slot, s.state));
+        }
         for i in 0..self.slots.len() {
             let p = self.processed(i);
             let s = &self.slots[i];
@@ -1184,6 +1362,12 @@ impl OpsWorld {
                 drop(unsafe { Box::from_raw(std::ptr::from_ref(fd).cast_mut()) });
             }
             let _ = self.ring.as_mut().unwrap().poll(Some(Duration::ZERO));
+        });
+        for sel in self.sels.iter_mut().filter(|s| s.state == SelState::Owned) {
+            sel.state = SelState::Released;
+        }
+        self.pool_check(true);
+        talloc::track(|| {
             self.pool = None;
         });
         self.absorb_kernel_log();
